@@ -144,7 +144,17 @@ func GenEnumDecl(t *rapid.T, min, max int) []string {
 	decl := append([]string(nil), perm[:n]...)
 	// now and then the values in use come after ~200 unused declared values: their internal codes are then high
 	// (enum filters work on a 256-bit set of value codes, sorting on the code order)
-	if rapid.IntRange(0, 9).Draw(t, "highcodes") == 0 {
+	switch hc := rapid.IntRange(0, 9).Draw(t, "highcodes"); {
+	case hc == 1 && n < 60:
+		// a value list of exactly 63/64/65, 127/128/129 or 191/192/193 entries (the word boundaries of the 256-bit
+		// code set), the values in use at its end: the last code of a word is then a value that filters match
+		total := rapid.SampledFrom([]int{63, 64, 65, 64, 127, 128, 129, 191, 192, 193}).Draw(t, "enumtotal")
+		high := make([]string, 0, total)
+		for i := 0; i < total-n; i++ {
+			high = append(high, fmt.Sprintf("%s%03d", unusedPrefix, i))
+		}
+		decl = append(high, decl...)
+	case hc == 0:
 		fill := rapid.IntRange(185, 248-n).Draw(t, "fillers") // room left for values a check adds itself (C13 declares "")
 		high := make([]string, 0, fill+n)
 		for i := 0; i < fill; i++ {
